@@ -730,6 +730,9 @@ def conjugate(x, out=None, out_like=None, sizing='optimal', method='raw', **kwar
     """
     """
     def _conjugate_raw(x, n_frac, **kwargs):
+        if not np.iscomplexobj(x.val):
+            # a real value is its own conjugate (no detour through complex128, which has 53 bits per part)
+            return _rescale_raw(x.val, n_frac - x.n_frac, n_frac)
         precision_cast = (lambda m: np.array(m, dtype=object)) if n_frac >= _n_word_max else (lambda m: m)
         val_real = np.vectorize(lambda v: v.real)(x.val)
         val_imag = np.vectorize(lambda v: v.imag)(x.val)
